@@ -27,7 +27,8 @@ SCHEDULE_MEASURE = "distinct (task scripts, budget partition, start clock) hashe
 COMPONENTS = {
     "real": ["sc62015/core/src/async_driver.rs AsyncDriver::{new,with_clock,spawn,run_for}, sleep_cycles, emit_event, current_cycle",
              "sc62015/core/src/async_cpu.rs", "sc62015/core/src/async_runtime.rs AsyncRuntimeRunner",
-             "sc62015/core/src/lib.rs CoreRuntime::step"],
+             "sc62015/core/src/lib.rs CoreRuntime::step", "sc62015/core/src/async_devices.rs AsyncDisplayTask::run_frames, "
+             "AsyncTimerKeyboardTask (C12's rs-async-timer batch)"],
     "stub": ["tasks are scripted futures written in /verif/rust/simhost (sleep/emit/log only)",
              "perfetto tracing compiled out"],
 }
